@@ -447,3 +447,47 @@ func checkC09Long(c C09LongCase) error {
 func init() { reg("C09.long", checkC09Long) }
 
 func init() { reg("C09.flow", checkC09) }
+
+// ---- set at the top level of a template that extends another -----------------------------------------------------
+
+type C09ExtSetCase struct {
+	Which int `json:"which"`
+}
+
+var c09ExtSetSets = []struct {
+	main, want string
+}{
+	{"{% extends 'base' %}{% set title = 'Hello' %}{% block t %}{{ title }}{% endblock %}", "<Hello|>"},
+	{"{% extends 'base' %}{% set a = 1 %}{% set b = a + 1 %}{% block t %}{{ a }}{{ b }}{% endblock %}{% block u %}{{ b * 2 }}{% endblock %}", "<12|4>"},
+	{"{% extends 'base' %}{% block t %}{{ late }}{% endblock %}{% set late = 'L' %}", "<L|>"},
+	{"{% extends 'base' %}{% set xs = [1, 2] %}{% block t %}{% for x in xs %}{{ x }}{% endfor %}{% endblock %}", "<12|>"},
+	{"{% extends 'mid' %}{% set me = 'child' %}{% block u %}{{ me }}/{{ who }}{% endblock %}", "<mid:mid|child/mid>"},
+}
+
+// checkC09ExtSet: a set makes its value visible to everything rendered after it in the same template:
+// also to the blocks of a template whose other top-level content produces no output because it
+// extends another.
+func checkC09ExtSet(c C09ExtSetCase) error {
+	s := c09ExtSetSets[c.Which%len(c09ExtSetSets)]
+	tm := map[string]string{"main": s.main, "base": "<{% block t %}{% endblock %}|{% block u %}{% endblock %}>", "mid": "{% extends 'base' %}{% set who = 'mid' %}{% block t %}mid:{{ who }}{% endblock %}"}
+	r := render(newEngine(tm), "main", nil)
+	if r.Failed() || r.Out != s.want {
+		return fmt.Errorf("%s renders %v, want %s", q(s.main), r, q(s.want))
+	}
+	return nil
+}
+
+func TestC09ExtendsSet(t *testing.T) {
+	r := NewRec(t, "C09", "exhaustive: 5 templates that extend another and assign variables at their top level (one set, a set that reads an earlier one, a set after the block, a list for a loop in a block, a middle template with a set of its own); expected text written out; all cases non-trivial")
+	defer r.Flush()
+	r.SetExhaustive()
+	for i := range c09ExtSetSets {
+		c := C09ExtSetCase{Which: i}
+		r.Case(fmt.Sprint(i), true, c09ExtSetSets[i].main)
+		if err := checkC09ExtSet(c); err != nil {
+			r.FailEnum(t, "C09.extset", c, err)
+		}
+	}
+}
+
+func init() { reg("C09.extset", checkC09ExtSet) }
